@@ -267,8 +267,8 @@ func jsonFieldName(f reflect.StructField) (name, opts string, skip bool) {
 	if ok {
 		n, o, _ := strings.Cut(tag, ",")
 		opts = o
-		if n != "" {
-			name = n
+		if n != "" && classicValidTagName(n) {
+			name = n // a tag name with other characters (quotes, control characters) is ignored by both packages
 		}
 	}
 	return name, opts, false
@@ -397,6 +397,10 @@ func genInput(r *rand.Rand, t reflect.Type, opts string, depth int) string {
 				key = pick(r, junkStrings)
 			case kt == reflect.TypeFor[ITM]():
 				key = pick(r, []string{`"i1"`, `"i-2"`, `"1"`, `"i"`})
+			case kt == reflect.TypeFor[JTM]():
+				key = pick(r, []string{`"a"`, `"b"`, `"\u0061"`, `""`})
+			case kt == timeT:
+				key = pick(r, timeStrings)
 			case kt == reflect.TypeFor[TM]():
 				key = pick(r, []string{`"tm:a"`, `"tm:b"`, `"b"`, `"ERR"`, `""`})
 			case kt.Kind() == reflect.Pointer:
